@@ -102,6 +102,13 @@ func execHmacHistory(o *out, f [][]int) []int {
 }
 
 func (r *rng) hmacKey() []byte {
+	if lens := litIntsIn(1, 600, 40); len(lens) > 0 && r.chance(1, 6) {
+		n := lens[r.intn(len(lens))] + r.pick([]int{-1, 0, 1}) // a number of the library's source as the key length
+		if n < 0 {
+			n = 0
+		}
+		return r.bytes(n)
+	}
 	switch r.intn(6) {
 	case 0:
 		return r.bytes(r.pick([]int{0, 1, 20, 63, 64, 65, 128, 129, 200, 300}))
@@ -128,6 +135,9 @@ func genHmacHistory(r *rng, maxMsg int) []string {
 				l := r.intn(maxMsg + 1)
 				if r.chance(1, 3) {
 					l = r.pick([]int{0, 1, 55, 56, 63, 64, 65, 119, 120, 128})
+				}
+				if lens := litIntsIn(1, 1500, 40); len(lens) > 0 && r.chance(1, 6) {
+					l = lens[r.intn(len(lens))] + r.pick([]int{-1, 0, 1})
 				}
 				fs = append(fs, withBytes([]int{2}, r.bytes(l)))
 			case 3, 4:
